@@ -86,3 +86,31 @@ Example C07_mod_big : modI maxI 2 = Ok 1. Proof. reflexivity. Qed.
 Example C07_div_big : intFloorDivI 9007199254740993 1 = Ok 9007199254740993. Proof. reflexivity. Qed.
 Example C07_pow_63 : intPow 2 63 = Err (EExc IntOverflow) /\ intPow 2 62 = Ok 4611686018427387904 /\ intPow (-2) 63 = Ok minI.
 Proof. repeat split; reflexivity. Qed.
+
+(** ** floats: multiplication and division against IEEE-754 (Flocq), for all finite operands *)
+From Coq Require Import Reals.
+From Flocq Require Import Core IEEE754.BinarySingleNaN IEEE754.Binary.
+From PV Require Import Proofs.FloatKernels.
+Open Scope R_scope.
+
+Theorem C07_mulF : forall x y : f64, fis_finite x = true -> fis_finite y = true ->
+  let p := rnd (B2R 53 1024 x * B2R 53 1024 y) in
+  if Rlt_bool (Rabs p) (bpow radix2 1024) then
+    if Req_bool p 0 && negb (Req_bool (B2R 53 1024 x) 0) && negb (Req_bool (B2R 53 1024 y) 0)
+    then mulF x y = Err (EExc Underflow)
+    else exists r, mulF x y = Ok r /\ B2R 53 1024 r = p /\ fis_finite r = true
+  else mulF x y = Err (EExc FloatOverflow).
+Proof. exact mulF_correct. Qed.
+
+Theorem C07_divF : forall x y : f64, fis_finite x = true -> fis_finite y = true ->
+  if Req_bool (B2R 53 1024 y) 0 then divF x y = Err (EExc ZeroDivisor)
+  else
+    let q := rnd (B2R 53 1024 x / B2R 53 1024 y) in
+    if Rlt_bool (Rabs q) (bpow radix2 1024) then
+      if Req_bool q 0 && negb (Req_bool (B2R 53 1024 x) 0)
+      then divF x y = Err (EExc Underflow)
+      else exists r, divF x y = Ok r /\ B2R 53 1024 r = q /\ fis_finite r = true
+    else divF x y = Err (EExc FloatOverflow).
+Proof. exact divF_correct. Qed.
+
+Print Assumptions C07_mulF.
